@@ -12,6 +12,7 @@
 From Coq Require Import List Arith Lia.
 Import ListNotations.
 From SFV Require Import FockAxes.Model FockAxes.Lists FockAxes.Proofs FockAxes.TwoMode FockAxes.Channel FockAxes.Prepare.
+From SFV Require FockAxes.Exec FockAxes.ExecFacts.
 
 (* ------------------------------------------------------------------ the vocabulary means what it says *)
 
@@ -274,6 +275,29 @@ Proof. exact @alloc_axes. Qed.
 Print Assumptions C05_fock_alloc_axes.
 
 (* ------------------------------------------------------------------ the hypotheses are satisfiable *)
+
+(* ... by the very kernels the correspondence check executes (explicit integer contractions, coq/FockAxes/Exec.v):
+   np.dot(matview, .) / the diag fast path, matview . rho . matview^dagger, _apply_two_mode_passive, _apply_S2 *)
+Theorem C01_fock_axes_kernel_gate_pure_ok :
+  forall mat size trunc, respects_shape size (Exec.F_gate mat size trunc).
+Proof. exact ExecFacts.F_gate_respects_shape. Qed.
+Print Assumptions C01_fock_axes_kernel_gate_pure_ok.
+
+Theorem C01_fock_axes_kernel_gate_mixed_ok :
+  forall mat size trunc, respects_shape (2 * size) (Exec.G_gate mat size trunc).
+Proof. exact ExecFacts.G_gate_respects_shape. Qed.
+Print Assumptions C01_fock_axes_kernel_gate_mixed_ok.
+
+Theorem C01_fock_axes_kernel_passive_ok :
+  forall mat trunc, respects_shape 2 (Exec.F_passive mat trunc).
+Proof. exact ExecFacts.F_passive_respects_shape. Qed.
+Print Assumptions C01_fock_axes_kernel_passive_ok.
+
+Theorem C01_fock_axes_kernel_S2_ok :
+  forall mat trunc, respects_shape 2 (Exec.F_S2 mat trunc).
+Proof. exact ExecFacts.F_S2_respects_shape. Qed.
+Print Assumptions C01_fock_axes_kernel_S2_ok.
+
 
 Example ex_good_targets : good_targets 3 [2; 0].
 Proof. split; [repeat constructor; simpl; intuition lia|]. simpl. intros a [<-|[<-|[]]]; lia. Qed.
